@@ -115,6 +115,10 @@ def run_case(case, rec):
             s.vle(**spec); return True
         except Exception as e:
             if type(e).__name__ in REFUSE: rec.refuse(f'{"".join(sorted(spec))}: {type(e).__name__}'); return False
+            # C04 speaks about calculations that return: a raise inside a solver (FloatingPointError in the activity model, 'root could not be solved')
+            # is counted, not judged; programming errors in the call path are still reported
+            if not isinstance(e, (TypeError, AttributeError, KeyError, IndexError, NameError, UnboundLocalError)):
+                rec.refuse(f'{"".join(sorted(spec))}: raised {type(e).__name__}'); return False
             rec.exception('flash', e, what=f'vle({spec}) on {ids} ({kind}) raised {type(e).__name__}: {str(e)[:140]}'); return False
 
     with warnings.catch_warnings():
@@ -237,7 +241,9 @@ def run_case(case, rec):
                     else:
                         rng_ = abs(Shi - Slo)
                         sbound = 5e-3 * rng_ if fixed_name == 'P' else max(5e-3 * rng_, 10 * slopeS * 1.0)
-                        if fixed_name == 'P' and sbound < abs(got - target) <= 2e-2 * rng_: sfx = '/first-order-correction-error'
+                        # the final step of set_PS moves a fraction of one phase into the other assuming the entropy is linear in that fraction; what it
+                        # neglects is the entropy of mixing, bounded by R*F*ln(2) for the material moved (R in kJ/kmol/K, F in kmol/hr)
+                        if fixed_name == 'P' and sbound < abs(got - target) <= 8.314462618 * s.F_mol * math.log(2.): sfx = '/first-order-correction-error'
                         rec.check(abs(got - target) <= sbound, 'spec-S', fixed_name + 'S' + sfx, f'vle({fixed}, S={target!r}) on {ids}: stream S = {got!r} (residual {abs(got - target) / rng_:.3g} of S_vap - S_liq)', residual=abs(got - target) / rng_)
                     if 0 < vfrac(s, vidx) < 1: two_phase = True
     if two_phase: rec.mark_nontrivial(case_hash(case))
